@@ -103,6 +103,7 @@ type FnVC struct {
 	closures      map[ssa.Value]*ssa.MakeClosure
 	bitUses       []bitUse
 	callLocVars   map[string]Loc // callee parameter names bound to interior pointers at the current call
+	sweep         bool           // zero-annotation safety sweep: only run-time safety obligations matter
 	retReach      []string
 	globalErrs    []string
 	newErrs       []string
